@@ -172,6 +172,7 @@ Definition ok (x : local) : bool :=
   (* a waiting call that is neither registered nor being registered has its done closed *)
   && implb (p_in p waiting_pc) (r || d || v_in v subscribing)
   && implb (view_eqb v VRemoving && negb r) d
+  && implb (view_eqb v VRemoving) f
   (* after the loop has exited nobody is registered *)
   && implb (view_eqb v VExited) (negb r)
   && implb (view_eqb v VGotUnsub) (l_ctx x)
